@@ -51,6 +51,7 @@ fn main() {
             "C12chain" => chaincheck::run("C12", &tier, seed),
             "C07chain" => chaincheck::run("C07", &tier, seed),
             "C14chain" => chaincheck::run("C14", &tier, seed),
+            "C03chain" => chaincheck::run("C03", &tier, seed),
             _ => checks::run(&args[2], &tier, seed),
         },
         "show" => checks::show(&args[2], &tier, seed),
